@@ -72,6 +72,49 @@ def run(ck):
             for n_, (bi, t) in enumerate(pushes):
                 o = f.origins(t["args"][1], deep=True)
                 ck.ob("DEFUSE", f.path, "pushed-index-hardened#%d" % n_, has_call_origin(o, r"checked_harden$|::harden$"), "every pushed index comes from (checked_)harden", f.loc(bi))
+    # distinct paths for distinct keys (structural part): every derivation function puts all its index parameters into the
+    # path, and two functions that use the same root and the same path length differ in a literal component
+    kc = crate("rs", K)
+    shapes = {}
+    for p in sorted(kc.paths()):
+        if not re.search(r"ConcordiumHdWallet::get_[a-z_]+$", p):
+            continue
+        f = Fn(kc.get_all(p)[0])
+        mk = f.calls(r"ConcordiumHdWallet::make_(verifiable_credential_)?path$")
+        if not mk:
+            continue        # wrappers (public keys from secret keys) derive nothing themselves
+        root = mk[0][1]["f"]["path"].split("::")[-1]
+        arr = [st["rv"] for b2 in sorted(f.reachable()) for st in f.stmts(b2) if st.get("rv", {}).get("k") == "agg" and st["rv"].get("agg") == "array"]
+        used = set()
+        shape = None
+        if arr:
+            shape = []
+            for x in arr[-1]["ops"]:
+                k = op_const(x)
+                if k is not None and const_int(k) is not None:
+                    shape.append(("lit", const_int(k)))
+                else:
+                    ps = sorted(a[1] for a in f.origins(x, deep=True) if a[0] == "arg")
+                    used |= set(ps)
+                    shape.append(("par",) + tuple(ps))
+        shapes[p] = (root, shape)
+        params = [i for i in range(2, f.argc + 1)]
+        if shape is not None:
+            missing = [f.names().get(i, "arg%d" % i) for i in params if i not in used]
+            ck.ob("COV", p, "every-index-parameter-in-the-path", not missing,
+                  "all %d index parameters are components of the derivation path" % len(params) if not missing else
+                  "parameter(s) %s do not reach the derivation path: different inputs derive the same key" % missing, f.loc(mk[0][0]))
+    ck.floor("COV", "derivation functions that build a path", len(shapes), 7)
+    ps_ = sorted(shapes)
+    for i, a in enumerate(ps_):
+        for b in ps_[i + 1:]:
+            (ra, sa), (rb, sb) = shapes[a], shapes[b]
+            if ra != rb or sa is None or sb is None or len(sa) != len(sb):
+                continue
+            differ = any(x[0] == "lit" and y[0] == "lit" and x[1] != y[1] for x, y in zip(sa, sb))
+            ck.ob("CMP", a, "path-differs-from:" + b.split("::")[-1], differ,
+                  "same root and length, separated by a literal component" if differ else
+                  "%s and %s build paths of the same shape with no differing literal component: the two keys coincide for equal indices" % (a.split("::")[-1], b.split("::")[-1]), "")
     f = getfn(ck, "rs", "keygen_bls", "keygen_bls::keygen_bls")
     if f:
         enf_calls(ck, f, r"Hkdf::<H, I>::expand$|::expand$", "hkdf expand")
